@@ -99,6 +99,9 @@ class Tr:
             if op is None:
                 if isinstance(e.op, ast.Mod):
                     return f"(fmod {a} {b})"
+                if isinstance(e.op, ast.FloorDiv):
+                    # integer code (C09 window arithmetic); the caller's namespace supplies `fdiv`
+                    return f"(fdiv {a} {b})"
                 raise Untranslatable(f"operator {type(e.op).__name__}")
             return f"({a} {op} {b})"
         if isinstance(e, ast.Call):
